@@ -180,6 +180,9 @@ def run(ctx):
                 "record, .txt particles - files that do not hold unit charge} x RenormalizeCharge {0, k}; non-trivial = at least one "
                 "row compared and the phase space actually changes during the run")
     coq = vp_coq.full_check("C12", ctx, fams=("driver",))
+    for x in (dc.observer_report() or []):
+        ctx.notes.append("observer-guarded statement is not pure (obligation of C12_setup_observers_pure / C12_loop_observers_pure): " + x)
+        ctx.log("not pure: " + x)
     tg = ctx.build(harness=("h5cat",), want_binary=True)
     ctx.trusted.add("harness: harness/h5cat.cpp, lib/driver_cases.py, VERIF_POINT hook (inc/VerifHooks.hpp), HDF5/FFTW libraries; "
                     "FFTW wisdom shared through XDG_DATA_HOME")
